@@ -81,7 +81,8 @@ inductive PC where
   | hold (t : Nat)                 -- user code holds the feedback object of trial t
   | amOk (t : Nat)                 -- passed the status test of _add_measurement
   | doneOk (t : Nat)               -- saw PENDING in done()
-  | doneFb (t : Nat)               -- status set; before the feedback call
+  | doneFin (t : Nat)              -- status set; before `final_measurement = measurements[-1]`
+  | doneFb (t : Nat)               -- before the feedback call
   | doneFbW (t : Nat)              -- read _num_feedbacks (in `tmp`); before writing it back
   | doneCp (t : Nat)               -- before _complete_trial
   | skipOk (t : Nat)
@@ -112,7 +113,7 @@ inductive Act where
   | createAtomic | ctCheck | ctNew | ctAppend | ctPendR | ctPendW | ctLatest
   | release
   | measure (r : Int) | amStatus | amAppend (r : Int)
-  | doneAtomic | doneStatus | doneSet | fbAtomic | fbRead | fbWrite
+  | doneAtomic | doneStatus | doneSet | doneFinal | fbAtomic | fbRead | fbWrite | fbSkip
   | skipAtomic | skipStatus | skipSet
   | completeAtomic | cpComplR | cpComplW | cpPendR | cpPendW | cpInf | cpBestR | cpBestW
   | endLoop
@@ -176,6 +177,17 @@ def lastInt : List Int → Option Int
 /-- done(): `status = COMPLETED; final_measurement = measurements[-1]` (124-125). -/
 def Study.markDone (st : Study) (k : Nat) : Study :=
   { st with trials := updTrial k (fun t => { t with completed := true, final := lastInt t.meas }) st.trials }
+
+def Study.setCompleted (st : Study) (k : Nat) : Study :=
+  { st with trials := updTrial k (fun t => { t with completed := true }) st.trials }
+
+def Study.setFinal (st : Study) (k : Nat) : Study :=
+  { st with trials := updTrial k (fun t => { t with final := lastInt t.meas }) st.trials }
+
+def Study.isInfeasible (st : Study) (k : Nat) : Bool :=
+  match findTrial k st.trials with
+  | some t => t.infeasible
+  | none => false
 
 /-- skip(): `status = COMPLETED; infeasible = True; final_measurement = Measurement(reward=0)` (134-137). -/
 def Study.markSkipped (st : Study) (k : Nat) : Study :=
@@ -394,7 +406,19 @@ def exec (cfg : LockCfg) (s : State) (w : Nat) (a : Act) : Option State :=
       if !cfg.doneCheckAndSetAtomic then
         match wk.pc, s.studyOf w with
         | .doneOk t, some st =>
-          some (if st.hasMeas t then (s.setStudy w (st.markDone t)).setPc w (.doneFb t) else s.setPc w (.hold t))
+          some (if st.hasMeas t then (s.setStudy w (st.setCompleted t)).setPc w (.doneFin t) else s.setPc w (.hold t))
+        | _, _ => none
+      else none
+    | .doneFinal =>
+      if !cfg.doneCheckAndSetAtomic then
+        match wk.pc, s.studyOf w with
+        | .doneFin t, some st => some ((s.setStudy w (st.setFinal t)).setPc w (.doneFb t))
+        | _, _ => none
+      else none
+    | .fbSkip =>       -- get_reward_for_feedback returned None (trial meanwhile marked infeasible)
+      if !cfg.doneCheckAndSetAtomic then
+        match wk.pc, s.studyOf w with
+        | .doneFb t, some st => if st.isInfeasible t then some (s.setPc w (.doneCp t)) else none
         | _, _ => none
       else none
     | .fbAtomic =>
